@@ -103,16 +103,18 @@ func c14Templates() map[string][]gen.Node {
 		"block":             {&gen.NBlock{Name: "blk", Body: []gen.Node{tx("in block")}}},
 		"macro-and-call": {&gen.NMacro{Name: "mc", Params: []string{"p", "q", "r"}, Body: []gen.Node{pr(nm("p")), tx("/"), pr(nm("q"))}},
 			pr(&gen.EMethod{X: nm("_self"), Name: "mc", Args: []gen.Expr{num(1), str("two")}})},
-		"import":                {&gen.NImport{Tpl: str("lib"), Alias: "L"}, pr(&gen.EMethod{X: nm("L"), Name: "lm", Args: []gen.Expr{nm("s")}})},
-		"from":                  {&gen.NFrom{Tpl: str("lib"), Names: [][2]string{{"lm", "renamed"}, {"lm2", "lm2"}}}, pr(&gen.ECall{Fn: "renamed", Args: []gen.Expr{num(5)}}), pr(&gen.ECall{Fn: "lm2"})},
-		"include":               {&gen.NInclude{Tpl: str("part"), With: &gen.EHash{Keys: []gen.Expr{nm("w")}, Vals: []gen.Expr{num(1)}}, Only: true}, &gen.NInclude{Tpl: bin("~", str("pa"), str("rt"))}, &gen.NInclude{Tpl: str("part"), Only: true}},
-		"embed":                 {&gen.NEmbed{Tpl: str("lay"), With: &gen.EHash{Keys: []gen.Expr{nm("w")}, Vals: []gen.Expr{str("x")}}, Only: true, Blocks: []*gen.NBlock{{Name: "eb", Body: []gen.Node{tx("over")}}}}},
-		"do":                    {&gen.NDo{X: &gen.ECall{Fn: "fn", Args: []gen.Expr{num(1)}}}},
-		"verbatim":              {&gen.NVerbatim{S: "{{ raw }}{% if x %}y{% endif %}{{ 'unclosed"}},
-		"arithmetic":            e(bin("-", bin("+", num(1), bin("*", num(2), num(3))), bin("/", num(8), num(4)))),
-		"power-floor-mod":       e(bin("+", bin("**", num(2), num(3)), bin("%", bin("//", num(7), num(2)), num(2)))),
-		"concat-compare":        e(bin("==", bin("~", nm("s"), str("x")), str("abcx"))),
-		"logic-words":           e(bin("or", bin("and", nm("t"), &gen.EUn{Op: "not", X: nm("f")}), nm("f"))),
+		"import":          {&gen.NImport{Tpl: str("lib"), Alias: "L"}, pr(&gen.EMethod{X: nm("L"), Name: "lm", Args: []gen.Expr{nm("s")}})},
+		"from":            {&gen.NFrom{Tpl: str("lib"), Names: [][2]string{{"lm", "renamed"}, {"lm2", "lm2"}}}, pr(&gen.ECall{Fn: "renamed", Args: []gen.Expr{num(5)}}), pr(&gen.ECall{Fn: "lm2"})},
+		"include":         {&gen.NInclude{Tpl: str("part"), With: &gen.EHash{Keys: []gen.Expr{nm("w")}, Vals: []gen.Expr{num(1)}}, Only: true}, &gen.NInclude{Tpl: bin("~", str("pa"), str("rt"))}, &gen.NInclude{Tpl: str("part"), Only: true}},
+		"embed":           {&gen.NEmbed{Tpl: str("lay"), With: &gen.EHash{Keys: []gen.Expr{nm("w")}, Vals: []gen.Expr{str("x")}}, Only: true, Blocks: []*gen.NBlock{{Name: "eb", Body: []gen.Node{tx("over")}}}}},
+		"do":              {&gen.NDo{X: &gen.ECall{Fn: "fn", Args: []gen.Expr{num(1)}}}},
+		"verbatim":        {&gen.NVerbatim{S: "{{ raw }}{% if x %}y{% endif %}{{ 'unclosed"}},
+		"arithmetic":      e(bin("-", bin("+", num(1), bin("*", num(2), num(3))), bin("/", num(8), num(4)))),
+		"power-floor-mod": e(bin("+", bin("**", num(2), num(3)), bin("%", bin("//", num(7), num(2)), num(2)))),
+		"concat-compare":  e(bin("==", bin("~", nm("s"), str("x")), str("abcx"))),
+		"logic-words":     e(bin("or", bin("and", nm("t"), &gen.EUn{Op: "not", X: nm("f")}), nm("f"))),
+		// names that begin with an operator word, next to word operators
+		"operator-like-names":   e(bin("or", bin("and", &gen.EUn{Op: "not", X: nm("index")}, bin("in", nm("inx"), nm("order"))), bin("or", &gen.ETest{X: nm("isle"), Not: true, Test: "pos"}, bin("starts with", nm("nota"), nm("andy"))))),
 		"not-paren":             e(&gen.EUn{Op: "not", X: &gen.EGroup{X: nm("f")}}),
 		"in-array":              e(bin("in", nm("n"), &gen.EArr{Els: []gen.Expr{num(1), num(3)}})),
 		"not-in-range":          e(bin("not in", num(5), &gen.EGroup{X: bin("..", num(1), num(3))})),
@@ -151,7 +153,8 @@ func c14Aux() map[string]*gen.Template {
 }
 
 func c14Ctx() map[string]interface{} {
-	return map[string]interface{}{"n": 3, "s": "abc", "t": true, "f": false, "arr": []int{1, 2, 3}, "h": map[string]interface{}{"k": []int{7}}, "obj": gen.NewThing(), "w": "W"}
+	return map[string]interface{}{"n": 3, "s": "abc", "t": true, "f": false, "arr": []int{1, 2, 3}, "h": map[string]interface{}{"k": []int{7}}, "obj": gen.NewThing(), "w": "W",
+		"index": false, "inx": 2, "order": []int{1, 2}, "isle": 0, "nota": "andx", "andy": "and"}
 }
 
 func (p *c14) Init(tier string, seed int64) {
